@@ -1,7 +1,7 @@
 (* Facts about the composition of Models B and C (Hs/Interop.v): a client and a server whose configurations fit
    together establish one session and agree about it; over a JSON connection an authentication round trip does
    not get through. *)
-From Coq Require Import List Bool Arith String.
+From Coq Require Import List Bool Arith String Lia.
 Import ListNotations.
 From Lime Require Import Hs.Types Hs.Server Hs.Client Hs.Interop.
 Open Scope string_scope.
@@ -291,4 +291,168 @@ Proof.
   match goal with |- context [s_out ?a ?b ?c] =>
     assert (Hs : s_out a b c = [v_auth_offer snode sid (sch0 :: schs); VBad]) by exact S1 end.
   rewrite Hs. cbn [e_server_established e_client_established]. repeat split; assumption.
+Qed.
+
+(* ---------- any number of authentication round trips, envelopes handed over as objects (in-process) ---------- *)
+Section Rounds.
+Variables (snode : nat).
+Variables (comp enc : list string) (sch0 : string) (schs : list string) (k : tkind) (t : bool) (sid : string).
+Variables (o : oracle) (csel esel : list string -> string) (auth : list string -> option nat -> string * nat) (id : nat).
+Variables (d : nat -> nat) (r n : nat).
+Let sc := mk_sconf comp enc (sch0 :: schs) k t sid.
+Let cc := mk_cconf csel esel auth id k t.
+(* the client's answer in round i *)
+Definition answer (i : nat) : string * nat :=
+  match i with O => auth (sch0 :: schs) None | S j => auth [] (Some (d j)) end.
+Definition answer_env (i : nat) : usent := auth_env sid (fst (answer i)) (snd (answer i)) id.
+Definition v_round (i : nat) : sin := v_env snode SAuthenticating sid 0 [] [] [] "" "" (Some (d i)).
+
+Hypothesis Hmem : forall i, i <= r -> mem (fst (answer i)) (sch0 :: schs) = true.
+Hypothesis Hround : forall i, i < r -> o_auth o id (fst (answer i)) (Some (snd (answer i))) i = ARound (d i).
+Hypothesis Hrole : o_auth o id (fst (answer r)) (Some (snd (answer r))) r = ARole.
+Hypothesis Hreg : o_reg o id = RNode n.
+
+Definition cses_of (u : usent) : cses :=
+  {| cs_id := us_id u; cs_state := us_state u; cs_enc := us_enc u; cs_comp := us_comp u;
+     cs_scheme := us_scheme u; cs_cred := us_cred u; cs_from := us_from u |}.
+
+Lemma server_rounds : forall m i c, i + m = r ->
+  ch_state c = SAuthenticating -> ch_conn c = true ->
+  let '(evs, c', out, rest) :=
+    auth_loop sc o c (cses_of (answer_env i)) i (map (fun j => to_cin (answer_env j)) (seq (S i) m)) in
+  s_out false snode evs = map v_round (seq i m) ++ [v_established snode sid n] /\
+  out = Returned false /\ rest = [] /\ ch_state c' = SEstablished /\ ch_remote c' = Some n /\ ch_enc c' = ch_enc c /\
+  ch_conn c' = true.
+Proof.
+  induction m as [|m IH]; intros i c Hi Hst Hconn.
+  - assert (i = r) by lia. subst i.
+    destruct c as [st e cm cn rm]. cbn in Hst, Hconn. subst st cn.
+    cbn -[mem]. rewrite String.eqb_refl. cbn -[mem]. rewrite (Hmem r (le_n r)). cbn.
+    rewrite Hrole, Hreg. cbn. repeat split; reflexivity.
+  - specialize (IH (S i) c).
+    destruct c as [st e cm cn rm]. cbn in Hst, Hconn. subst st cn.
+    cbn -[mem auth_loop].
+    cbn -[mem]. rewrite String.eqb_refl. cbn -[mem auth_loop]. rewrite (Hmem i) by lia.
+    cbn -[auth_loop]. rewrite (Hround i) by lia. cbn -[auth_loop].
+    change {| cs_id := sid; cs_state := SAuthenticating; cs_enc := ""; cs_comp := "";
+              cs_scheme := fst (auth [] (Some (d i))); cs_cred := Some (snd (auth [] (Some (d i)))); cs_from := id |}
+      with (cses_of (answer_env (S i))).
+    cbn [ch_enc] in IH.
+    destruct (auth_loop sc o _ (cses_of (answer_env (S i))) (S i) _) as [[[evs c'] out] rest].
+    destruct IH as (I1 & I2 & I3 & I4 & I5 & I6 & I7); [lia|reflexivity|reflexivity|].
+    cbn [s_out flat_map app]. unfold to_sin at 1. cbn [ss_round andb].
+    fold (s_out false snode evs). rewrite I1. repeat split; assumption.
+Qed.
+
+Definition c_auth (e : string) : cchan :=
+  {| uc_state := SAuthenticating; uc_sid := sid; uc_local := 0; uc_remote := 0; uc_enc := e; uc_comp := "none";
+     uc_conn := true; uc_rcv := false |}.
+Definition established_vses : vses :=
+  {| vs_state := SEstablished; vs_id := sid; vs_from := snode; vs_to := n; vs_encopts := []; vs_compopts := [];
+     vs_schemeopts := []; vs_enc := ""; vs_comp := ""; vs_round := None |}.
+
+Lemma client_rounds : forall m i fuel e ses, i + m = r -> m + 2 <= fuel ->
+  vs_state ses = SAuthenticating -> auth (vs_schemeopts ses) (vs_round ses) = answer i ->
+  let '(evs, c', out) :=
+    cauth_loop fuel c_repaired cc (c_auth e) ses (vs_round ses) (map v_round (seq i m) ++ [v_established snode sid n]) in
+  c_out evs = map (fun j => to_cin (answer_env j)) (seq i (S m)) /\ out = CRet established_vses /\
+  uc_sid c' = sid /\ uc_local c' = n /\ uc_remote c' = snode /\ uc_enc c' = e /\ uc_state c' = SEstablished.
+Proof.
+  induction m as [|m IH]; intros i fuel e ses Hi Hfuel Hst Hans.
+  - destruct fuel as [|[|fuel]]; [lia|lia|].
+    cbn -[answer]. rewrite Hst. cbn -[answer]. rewrite Hans.
+    unfold answer_env. destruct (answer i) as [s c]. cbn. repeat split; reflexivity.
+  - destruct fuel as [|fuel]; [lia|].
+    specialize (IH (S i) fuel e
+      {| vs_state := SAuthenticating; vs_id := sid; vs_from := snode; vs_to := 0; vs_encopts := []; vs_compopts := [];
+         vs_schemeopts := []; vs_enc := ""; vs_comp := ""; vs_round := Some (d i) |}).
+    cbn [vs_round vs_state vs_schemeopts] in IH.
+    cbn -[answer cauth_loop]. 
+    cbn -[answer]. rewrite Hst. cbn -[answer cauth_loop]. rewrite Hans.
+    unfold answer_env at 1. destruct (answer i) as [s c] eqn:Ea. cbn -[answer cauth_loop].
+    change (upd (c_auth e) SAuthenticating sid 0 0 true false) with (c_auth e).
+    destruct (cauth_loop fuel c_repaired cc (c_auth e) _ (Some (d i)) _) as [[evs c'] out].
+    destruct IH as (I1 & I2 & I3 & I4 & I5 & I6 & I7); [lia|lia|reflexivity|reflexivity|].
+    cbn -[answer]. fold (c_out evs). rewrite I1. repeat split; assumption.
+Qed.
+
+Hypothesis Hneed : needs_negotiation s_repaired sc (chan0 sc) (neg_comp_of comp k) (neg_enc_of enc k) = false.
+
+Definition rounds_cins : list cin := to_cin new_env :: map (fun j => to_cin (answer_env j)) (seq 0 (S r)).
+Definition rounds_sins : list sin :=
+  v_auth_offer snode sid (sch0 :: schs) :: map v_round (seq 0 r) ++ [v_established snode sid n].
+
+Lemma server_with_rounds :
+  let res := server_on sc o rounds_cins in
+  s_out false snode (rr_trace res) = rounds_sins /\
+  existsb (fun e => match e with EstCb => true | _ => false end) (rr_trace res) = true /\
+  ch_remote (rr_chan res) = Some n /\ ch_enc (rr_chan res) = initial_enc k.
+Proof.
+  unfold server_on, handle_channel, establish, rounds_cins.
+  cbn -[needs_negotiation intersect mem auth_loop answer_env]. fold sc.
+  unfold neg_comp_of, neg_enc_of in Hneed. rewrite Hneed.
+  cbn -[needs_negotiation intersect mem auth_loop answer_env].
+  pose proof (server_rounds r 0
+    {| ch_state := SAuthenticating; ch_enc := initial_enc k; ch_comp := "none"; ch_conn := true; ch_remote := None |}
+    eq_refl eq_refl eq_refl) as H.
+  match type of H with context [auth_loop ?a ?b ?c ?d ?e ?f] => set (X := auth_loop a b c d e f) in H end.
+  match goal with |- context [auth_loop ?a ?b ?c ?d ?e ?f] => change (auth_loop a b c d e f) with X end.
+  destruct X as [[[evs c'] out] rest]. destruct H as (H1 & -> & -> & H4 & H5 & H6 & H7).
+  cbn [ch_enc] in H6. rewrite H4, H7. cbn -[answer_env].
+  destruct c' as [st' e' cm' cn' rm']. cbn in H4, H5, H6, H7. subst.
+  cbn -[answer_env].
+  match goal with |- context [flat_map ?f (evs ++ [EstCb])] =>
+    change (flat_map f (evs ++ [EstCb])) with (s_out false snode (evs ++ [EstCb])) end.
+  unfold s_out at 1. rewrite flat_map_app. fold (s_out false snode evs). rewrite H1. cbn -[answer_env].
+  rewrite app_nil_r.
+  repeat split; try reflexivity.
+  rewrite existsb_app. cbn. rewrite orb_true_r. reflexivity.
+Qed.
+
+Lemma client_with_rounds :
+  let res := client_on cc rounds_sins in
+  c_out (ctrace res) = rounds_cins /\ build_ok res = true /\
+  uc_sid (snd (fst res)) = sid /\ uc_local (snd (fst res)) = n /\ uc_remote (snd (fst res)) = snode /\
+  uc_enc (snd (fst res)) = initial_enc k.
+Proof.
+  unfold client_on, cestablish, rounds_sins, rounds_cins.
+  cbn -[cauth_loop answer_env seq].
+  pose proof (client_rounds r 0 (S (List.length (map v_round (seq 0 r) ++ [v_established snode sid n]))) (initial_enc k)
+    {| vs_state := SAuthenticating; vs_id := sid; vs_from := snode; vs_to := 0; vs_encopts := []; vs_compopts := [];
+       vs_schemeopts := sch0 :: schs; vs_enc := ""; vs_comp := ""; vs_round := None |} eq_refl) as H.
+  cbn [vs_round vs_state vs_schemeopts] in H.
+  match type of H with context [cauth_loop ?a ?b ?c ?d ?e ?f ?g] => set (X := cauth_loop a b c d e f g) in H end.
+  match goal with |- context [cauth_loop ?a ?b ?c ?d ?e ?f ?g] => change (cauth_loop a b c d e f g) with X end.
+  destruct X as [[evs c'] out].
+  destruct H as (H1 & -> & H3 & H4 & H5 & H6 & H7); [|reflexivity|reflexivity|].
+  { rewrite app_length, map_length, seq_length. cbn. lia. }
+  cbn -[answer_env seq]. fold (c_out evs). rewrite H1. repeat split; assumption.
+Qed.
+End Rounds.
+
+(* Over the in-process transport an authentication of any number of round trips completes: the server's
+   Authenticate asks for a round trip r times (with data d 0 .. d (r-1)), the client's authenticator answers each
+   (answer i), the (r+1)-th answer is accepted: both ends establish the same session. *)
+Theorem round_trips_complete_in_process snode comp encs sch0 schs k t sid o csel esel auth id d r n :
+  let sc := mk_sconf comp encs (sch0 :: schs) k t sid in
+  let cc := mk_cconf csel esel auth id k t in
+  (forall i, i <= r -> mem (fst (answer sch0 schs auth d i)) (sch0 :: schs) = true) ->
+  (forall i, i < r -> o_auth o id (fst (answer sch0 schs auth d i)) (Some (snd (answer sch0 schs auth d i))) i = ARound (d i)) ->
+  o_auth o id (fst (answer sch0 schs auth d r)) (Some (snd (answer sch0 schs auth d r))) r = ARole ->
+  o_reg o id = RNode n ->
+  needs_negotiation s_repaired sc (chan0 sc) (neg_comp_of comp k) (neg_enc_of encs k) = false ->
+  exists cins, consistent false snode sc o cc cins /\ agree snode (ends_of false snode sc o cc cins) n (initial_enc k).
+Proof.
+  intros sc cc Hmem Hround Hrole Hreg Hneed.
+  pose proof (server_with_rounds snode comp encs sch0 schs k t sid o auth id d r n Hmem Hround Hrole Hreg Hneed)
+    as (S1 & S2 & S3 & S4).
+  pose proof (client_with_rounds snode sch0 schs k t sid csel esel auth id d r n) as (C1 & C2 & C3 & C4 & C5 & C6).
+  exists (rounds_cins sch0 schs sid auth id d r).
+  unfold consistent, round, agree, ends_of. fold sc cc.
+  match goal with |- context [s_out ?a ?b ?c] =>
+    assert (Hs : s_out a b c = rounds_sins snode sch0 schs sid d r n) by exact S1 end.
+  rewrite Hs.
+  cbn [e_server_established e_client_established e_server_sid e_client_sid e_server_remote e_client_local
+       e_client_remote e_server_enc e_client_enc].
+  repeat split; assumption.
 Qed.
